@@ -136,7 +136,7 @@ func mempoolCases(run *lib.Run, rng *lib.Rng, st *lib.Stats, id *int) {
 			}
 			st.LogCase(run.Out, *id, map[string]interface{}{"target": "mempool.Snapshot", "txs": ntx, "snapshot_txs": got, "panic": fmt.Sprint(pv)})
 			if got != ntx {
-				st.Fail("mempool:Snapshot:txnList", fmt.Sprintf("txPoolCheckpoint.Snapshot() of a pool holding %d transaction(s) returns a checkpoint with %d (Deserialize appends to the live pool, not to the new checkpoint), so the file the manager saves never contains the pool's transactions", ntx, got),
+				failOnce(st, "mempool:Snapshot:txnList", fmt.Sprintf("txPoolCheckpoint.Snapshot() of a pool holding %d transaction(s) returns a checkpoint with %d (Deserialize appends to the live pool, not to the new checkpoint), so the file the manager saves never contains the pool's transactions", ntx, got),
 					map[string]interface{}{"seed": run.Seed, "index": i, "txs": ntx, "snapshot_txs": got})
 			}
 		}
